@@ -19,6 +19,7 @@ type VfConn struct {
 	Closed          int
 	Calls           []string
 	ReadDeadlines   []time.Time
+	Deadlines       []time.Time // arguments of SetDeadline (both directions)
 	Remote, Local   net.Addr
 	WriteErrAfter   int // fail writes once Out holds this many bytes (0 = never)
 	WriteClosed     int
@@ -77,6 +78,7 @@ func (c *VfConn) LocalAddr() net.Addr  { c.note("LocalAddr"); return c.Local }
 func (c *VfConn) RemoteAddr() net.Addr { c.note("RemoteAddr"); return c.Remote }
 func (c *VfConn) SetDeadline(t time.Time) error {
 	c.note("SetDeadline")
+	c.Deadlines = append(c.Deadlines, t)
 	return nil
 }
 func (c *VfConn) SetReadDeadline(t time.Time) error {
